@@ -109,6 +109,14 @@ pub mod rc {
     }
 
     #[derive(TypeInfo)]
+    pub struct GenComp<B: parity_scale_codec::HasCompact> {
+        #[codec(compact)]
+        pub b: B,
+        pub c: Vec<B>,
+        pub d: Compact<B>,
+    }
+
+    #[derive(TypeInfo)]
     pub enum CompEn {
         A(#[codec(compact)] u128, Compact<u8>),
         B {
@@ -182,6 +190,7 @@ fn p(n: &str) -> ParamDecl {
         name: n.into(),
         skipped: false,
         config: false,
+        compactable: false,
     }
 }
 fn named(name: &str, ty: Ty) -> FieldDef {
@@ -239,6 +248,7 @@ pub const ASSOC: usize = 15;
 pub const ASSOCSKIP: usize = 16;
 pub const IPLAIN: usize = 17;
 pub const IUSES: usize = 18;
+pub const GENCOMP: usize = 19;
 
 pub fn model_defs() -> Vec<Def> {
     use Prim::*;
@@ -267,6 +277,7 @@ pub fn model_defs() -> Vec<Def> {
         name: "T".into(),
         skipped,
         config: true,
+        compactable: false,
     };
     vec![
         sdef(
@@ -318,6 +329,7 @@ pub fn model_defs() -> Vec<Def> {
                     name: "S".into(),
                     skipped: true,
                     config: false,
+                    compactable: false,
                 },
             ],
             vec![],
@@ -489,6 +501,25 @@ pub fn model_defs() -> Vec<Def> {
                 ),
             ]),
         ),
+        {
+            let mut b = named("b", Ty::Param(0));
+            b.compact_attr = true;
+            sdef(
+                path("GenComp"),
+                vec![ParamDecl {
+                    name: "B".into(),
+                    skipped: false,
+                    config: false,
+                    compactable: true,
+                }],
+                vec![],
+                Fields::Named(vec![
+                    b,
+                    named("c", Ty::Seq(SeqKind::Vec, bx(Ty::Param(0)))),
+                    named("d", Ty::Compact(bx(Ty::Param(0)))),
+                ]),
+            )
+        },
     ]
 }
 
@@ -532,6 +563,8 @@ pub fn roots() -> Vec<(MetaType, Ty)> {
             ]),
         ),
         (MetaType::new::<[Wrap; 4]>(), Ty::Array(4, bx(d(WRAP, vec![])))),
+        (MetaType::new::<GenComp<u32>>(), d(GENCOMP, vec![pr(U32)])),
+        (MetaType::new::<GenComp<Wrap>>(), d(GENCOMP, vec![d(WRAP, vec![])])),
     ]
 }
 
